@@ -16,6 +16,17 @@ CLAIMED = {
        'applications that touch clf.device directly and user callbacks are out of scope.',
   technique='lexical lock-set analysis + CFG dominance (ast)'),
 }
+CLAIMED['C11'] = dict(
+  category='other',
+  text='Decides the structural clauses of encode/decode consistency from the source: symbolic encoded length == __len__ for all 15 PDU '
+       'classes; omitted-parameter guards evaluated over the whole field domain against the decode defaults; window discipline of every '
+       'read in decode()/decode_header(); dispatch-table, header/sequence/FRMR bit-field and TLV format agreement between writer and '
+       'reader (finite domains enumerated exhaustively by the checker on the extracted expressions); recursion bound of the decode cone. '
+       'It does not decide decode(encode(p)) == p for payload bytes or agreement with an independent decoder on arbitrary strings.',
+  design_ref='DESIGN.md section 3 C11',
+  note='Trusted: struct format semantics of the checker interpreter; the induction len(x.encode()) == len(x) for aggregated sub-PDUs; '
+       'field domains RW 0..15, MIU 128..2175, SAP 0..63. Known findings (TLV/sub-PDU window, unbounded AGF nesting) are listed in known_findings.json.',
+  technique='symbolic length + writer/reader table agreement + CFG bound analysis (ast)')
 NA_REASON = {}
 def main():
     checks = []
